@@ -2,8 +2,11 @@
   C07 — clean_vector() is a canonical form; equality and hash are consistent with it.
 -/
 import Cvss.Model.Any
+import Cvss.Lemmas.Construct
+import Cvss.Lemmas.Clean
+import Cvss.Props.C05
 namespace Cvss.Props.C07
-open Cvss Cvss.Model
+open Cvss Cvss.Model Cvss.Lemmas.Construct
 
 /-- equality of library objects is an equivalence relation on each class, and equal objects have the
     same hash key -/
@@ -25,5 +28,433 @@ theorem eq_same_class (a b : AnyObj) (h : a.eq b = true) : a.ver = b.ver := by
 /-- metric tables have no repeated abbreviation (so "once each" makes sense) -/
 theorem abbrs_nodup : (keys Gen.V2.abbrs).Nodup ∧ (keys Gen.V3.abbrs).Nodup ∧ (keys Gen.V4.abbrs).Nodup := by
   decide +kernel
+
+/-! ### the canonical listing -/
+
+/-- the (metric, value) pairs that were given a DEFINED value, in table order -/
+def definedPairs (abbrs : List Str) (nd : Str) (m : MMap) : MMap :=
+  abbrs.filterMap (fun k => match lookup k m with
+    | some v => if v ≠ nd then some (k, v) else none
+    | none => none)
+
+/-- exactly the metrics of the table that were given a defined value, with that value -/
+theorem mem_definedPairs (abbrs : List Str) (nd : Str) (m : MMap) (k v : Str) :
+    (k, v) ∈ definedPairs abbrs nd m ↔ k ∈ abbrs ∧ lookup k m = some v ∧ v ≠ nd := by
+  unfold definedPairs
+  rw [List.mem_filterMap]
+  constructor
+  · rintro ⟨a, ha, h⟩
+    cases hl : lookup a m with
+    | none => simp [hl] at h
+    | some w =>
+      simp only [hl] at h
+      split at h
+      · rename_i hw
+        cases h
+        exact ⟨ha, hl, hw⟩
+      · cases h
+  · rintro ⟨hk, hl, hv⟩
+    exact ⟨k, hk, by simp [hl, hv]⟩
+
+/-- once each, in the one fixed (table) order -/
+theorem keys_definedPairs_sublist (abbrs : List Str) (nd : Str) (m : MMap) :
+    (keys (definedPairs abbrs nd m)).Sublist abbrs := by
+  induction abbrs with
+  | nil => simp [definedPairs, keys]
+  | cons a r ih =>
+    unfold definedPairs at ih ⊢
+    rw [List.filterMap_cons]
+    cases hl : lookup a m with
+    | none => exact ih.cons _
+    | some w =>
+      by_cases hw : w = nd
+      · simp only [hw, ne_eq, not_true_eq_false, if_false]
+        exact ih.cons _
+      · simp only [ne_eq, hw, not_false_eq_true, if_true, keys, List.map_cons]
+        exact ih.cons_cons _
+
+/-! ### generic facts about the canonical listing -/
+
+theorem keys_definedPairs_nodup (abbrs : List Str) (nd : Str) (m : MMap) (hn : abbrs.Nodup) :
+    (keys (definedPairs abbrs nd m)).Nodup :=
+  (keys_definedPairs_sublist abbrs nd m).nodup hn
+
+/-- the defined value of a metric (none if absent or Not Defined) -/
+def defVal (nd : Str) (m : MMap) (k : Str) : Option Str :=
+  match lookup k m with
+  | some v => if v ≠ nd then some v else none
+  | none => none
+
+theorem lookup_definedPairs (abbrs : List Str) (nd : Str) (m : MMap) (hn : abbrs.Nodup) (k : Str) :
+    lookup k (definedPairs abbrs nd m) = if k ∈ abbrs then defVal nd m k else none := by
+  apply Option.ext
+  intro v
+  rw [lookup_eq_some_iff _ (keys_definedPairs_nodup abbrs nd m hn), mem_definedPairs]
+  unfold defVal
+  by_cases hk : k ∈ abbrs
+  · simp only [hk, true_and, if_true]
+    cases lookup k m with
+    | none => simp
+    | some w =>
+      by_cases hw : w = nd
+      · subst hw; simp; exact fun h => h.symm
+      · simp only [Option.some.injEq, ne_eq, hw, not_false_eq_true, if_true]
+        constructor
+        · rintro ⟨rfl, -⟩; rfl
+        · rintro rfl; exact ⟨rfl, hw⟩
+  · simp [hk]
+
+theorem definedPairs_congr (abbrs : List Str) (nd : Str) (m₁ m₂ : MMap)
+    (h : ∀ k ∈ abbrs, defVal nd m₁ k = defVal nd m₂ k) :
+    definedPairs abbrs nd m₁ = definedPairs abbrs nd m₂ := by
+  unfold definedPairs
+  apply List.filterMap_congr
+  intro k hk
+  have := h k hk
+  unfold defVal at this
+  cases h1 : lookup k m₁ with
+  | none =>
+    cases h2 : lookup k m₂ with
+    | none => rfl
+    | some w₂ =>
+      rw [h1, h2] at this
+      by_cases hw₂ : w₂ = nd
+      · simp [hw₂]
+      · simp [hw₂] at this
+  | some w₁ =>
+    cases h2 : lookup k m₂ with
+    | none =>
+      rw [h1, h2] at this
+      by_cases hw₁ : w₁ = nd
+      · simp [hw₁]
+      · simp [hw₁] at this
+    | some w₂ =>
+      rw [h1, h2] at this
+      by_cases hw₁ : w₁ = nd <;> by_cases hw₂ : w₂ = nd <;> simp_all
+
+theorem defVal_definedPairs (abbrs : List Str) (nd : Str) (m : MMap) (hn : abbrs.Nodup) (k : Str)
+    (hk : k ∈ abbrs) : defVal nd (definedPairs abbrs nd m) k = defVal nd m k := by
+  have hl := lookup_definedPairs abbrs nd m hn k
+  rw [if_pos hk] at hl
+  unfold defVal at hl ⊢
+  rw [hl]
+  cases lookup k m with
+  | none => rfl
+  | some w => by_cases hw : w = nd <;> simp [hw]
+
+theorem definedPairs_idem (abbrs : List Str) (nd : Str) (m : MMap) (hn : abbrs.Nodup) :
+    definedPairs abbrs nd (definedPairs abbrs nd m) = definedPairs abbrs nd m :=
+  definedPairs_congr abbrs nd _ _ (fun k hk => defVal_definedPairs abbrs nd m hn k hk)
+
+theorem assignment_definedPairs (abbrs : List Str) (nd : Str) (m : MMap) (hn : abbrs.Nodup)
+    (hk : ∀ k ∈ keys m, k ∈ abbrs) : assignment nd (definedPairs abbrs nd m) = assignment nd m := by
+  funext k
+  unfold assignment
+  rw [lookup_definedPairs _ _ _ hn]
+  by_cases h : k ∈ abbrs
+  · simp only [h, if_true, defVal]
+    cases lookup k m with
+    | none => rfl
+    | some w => by_cases hw : w = nd <;> simp [hw]
+  · have : lookup k m = none := (lookup_eq_none_iff _ _).2 (fun hh => h (hk k hh))
+    simp [h, this]
+
+theorem filterMap_field (abbrs : List Str) (nd : Str) (m : MMap) :
+    abbrs.filterMap (fun k => match lookup k m with
+      | some v => if v ≠ nd then some (k ++ ':' :: v) else none
+      | none => none) = (definedPairs abbrs nd m).map fieldOf := by
+  unfold definedPairs
+  rw [List.map_filterMap]
+  congr 1
+  funext k
+  cases lookup k m with
+  | none => rfl
+  | some v => by_cases h : v = nd <;> simp [h, fieldOf]
+
+/-- everything the re-parse needs to know about the canonical listing of a parsed map -/
+theorem canon {T : Tables} {g : Spec.Grammar.G} (hP : C04.Pinned T g) (nd : Str)
+    (hnd : C05.ndLegal T nd = true) (hab : T.abbrs.Nodup) (hmne : T.mandatory ≠ [])
+    (m : MMap) (hl : ∀ kv ∈ m, LegalPair T kv) (hn : (keys m).Nodup)
+    (hm : ∀ k ∈ T.mandatory, k ∈ keys m) :
+    definedPairs T.abbrs nd m ≠ [] ∧
+    (∀ kv ∈ definedPairs T.abbrs nd m, LegalPair T kv) ∧
+    (∀ kv ∈ definedPairs T.abbrs nd m, '/' ∉ kv.1 ∧ '/' ∉ kv.2) ∧
+    (keys (definedPairs T.abbrs nd m)).Nodup ∧
+    (∀ k ∈ T.mandatory, k ∈ keys (definedPairs T.abbrs nd m)) ∧
+    definedPairs T.abbrs nd (definedPairs T.abbrs nd m) = definedPairs T.abbrs nd m ∧
+    assignment nd (definedPairs T.abbrs nd m) = assignment nd m := by
+  have hleg : ∀ kv ∈ definedPairs T.abbrs nd m, LegalPair T kv := by
+    rintro ⟨k, v⟩ hkv
+    obtain ⟨-, hlk, -⟩ := (mem_definedPairs _ _ _ _ _).1 hkv
+    exact hl _ (mem_of_lookup_eq_some _ _ _ hlk)
+  have hmand : ∀ k ∈ T.mandatory, k ∈ keys (definedPairs T.abbrs nd m) := by
+    intro k hk
+    obtain ⟨⟨k', v⟩, hkv, rfl⟩ := List.mem_map.1 (hm k hk)
+    obtain ⟨hka, ⟨vs, hvs, hv⟩, -, -⟩ := hl _ hkv
+    simp only at hka hvs hv hk
+    have hlk := lookup_eq_some_of_mem m hn _ _ hkv
+    have hne : v ≠ nd := by
+      rintro rfl
+      unfold C05.ndLegal at hnd
+      have := List.all_eq_true.1 hnd k' hka
+      simp only [hvs, hk, if_true] at this
+      simp [hv] at this
+    exact mem_keys_of_mem ((mem_definedPairs _ _ _ _ _).2 ⟨hka, hlk, hne⟩)
+  refine ⟨?_, hleg, fun kv hkv => hP.slashFree (hleg kv hkv), keys_definedPairs_nodup _ _ _ hab, hmand,
+    definedPairs_idem _ _ _ hab, assignment_definedPairs _ _ _ hab ?_⟩
+  · intro he
+    cases hmm : T.mandatory with
+    | nil => exact hmne hmm
+    | cons k r =>
+      have := hmand k (by rw [hmm]; simp)
+      rw [he] at this
+      simp [keys] at this
+  · intro k hk
+    obtain ⟨⟨k', v⟩, hkv, rfl⟩ := List.mem_map.1 hk
+    exact (hl _ hkv).1
+
+/-- `clean_vector()` is the rendering of the canonical listing, behind the version prefix
+    (omitted when `output_prefix=False`; none for v2) -/
+theorem clean_v2 (m : MMap) : V2.cleanOf m = join '/' ((definedPairs (keys Gen.V2.abbrs) V2.ND m).map fieldOf) := by
+  rw [← filterMap_field]
+  rfl
+
+theorem clean_v3 (minor : Nat) (orig : MMap) (p : Bool) :
+    V3.cleanOf minor orig p = (if p then V3.versionPrefix minor else []) ++
+      join '/' ((definedPairs (keys Gen.V3.abbrs) V3.X orig).map fieldOf) := by
+  rw [← filterMap_field]
+  rfl
+
+theorem clean_v4 (orig : MMap) (p : Bool) :
+    V4.cleanOf orig p = (if p then V4.pfx else []) ++
+      join '/' ((definedPairs (keys Gen.V4.abbrs) V4.X orig).map fieldOf) := by
+  rw [← filterMap_field]
+  rfl
+
+/-! ### per-version facts about the canonical listing of a parsed map -/
+
+theorem colonFree_of_legal {T : Tables} {d : MMap} (h : ∀ kv ∈ d, LegalPair T kv) : ColonFree d :=
+  fun kv hkv => ⟨(h kv hkv).2.2.1, (h kv hkv).2.2.2⟩
+
+theorem canon2 {s : Str} {m : MMap} (hp : V2.parse s = .ok m) :
+    V2.parse (V2.cleanOf m) = .ok (definedPairs (keys Gen.V2.abbrs) V2.ND m) ∧
+    V2.cleanOf (definedPairs (keys Gen.V2.abbrs) V2.ND m) = V2.cleanOf m ∧
+    assignment V2.ND (definedPairs (keys Gen.V2.abbrs) V2.ND m) = assignment V2.ND m ∧
+    definedPairs (keys Gen.V2.abbrs) V2.ND m ≠ [] ∧
+    SlashFree (definedPairs (keys Gen.V2.abbrs) V2.ND m) ∧
+    ColonFree (definedPairs (keys Gen.V2.abbrs) V2.ND m) := by
+  obtain ⟨-, -, hl, hn, hm⟩ := C04.v2_parse_ok_fields s m hp
+  obtain ⟨c1, c2, c3, c4, c5, c6, c7⟩ :=
+    canon C04.pinned2 V2.ND C05.nd_legal.1 abbrs_nodup.1 (by decide) m hl hn hm
+  refine ⟨?_, ?_, c7, c1, c3, colonFree_of_legal c2⟩
+  · rw [clean_v2]
+    exact C04.v2_parse_render _ c1 c2 c3 c4 c5
+  · rw [clean_v2, clean_v2]
+    exact congrArg (fun x => join '/' (List.map fieldOf x)) c6
+
+theorem versionPrefix_of_idx {i : Nat} {p : Str} (h : V3.prefixes[i]? = some p) :
+    V3.versionPrefix i = p ∧ (i = 0 ∨ i = 1) := by
+  match i, h with
+  | 0, h => simp [V3.prefixes] at h; subst h; exact ⟨by decide, Or.inl rfl⟩
+  | 1, h => simp [V3.prefixes] at h; subst h; exact ⟨by decide, Or.inr rfl⟩
+  | (n + 2), h => simp [V3.prefixes] at h
+
+theorem canon3 {s : Str} {i : Nat} {m : MMap} (hp : V3.parse s = .ok (i, m)) :
+    V3.parse (V3.cleanOf i m true) = .ok (i, definedPairs (keys Gen.V3.abbrs) V3.X m) ∧
+    (∀ b, V3.cleanOf i (definedPairs (keys Gen.V3.abbrs) V3.X m) b = V3.cleanOf i m b) ∧
+    assignment V3.X (definedPairs (keys Gen.V3.abbrs) V3.X m) = assignment V3.X m ∧
+    definedPairs (keys Gen.V3.abbrs) V3.X m ≠ [] ∧
+    SlashFree (definedPairs (keys Gen.V3.abbrs) V3.X m) ∧
+    ColonFree (definedPairs (keys Gen.V3.abbrs) V3.X m) ∧ (i = 0 ∨ i = 1) := by
+  obtain ⟨⟨p, hpi, -⟩, -, hl, hn, hm⟩ := C04.v3_parse_ok_fields s i m hp
+  obtain ⟨c1, c2, c3, c4, c5, c6, c7⟩ :=
+    canon C04.pinned3 V3.X C05.nd_legal.2.1 abbrs_nodup.2.1 (by decide) m hl hn hm
+  obtain ⟨hvp, hi⟩ := versionPrefix_of_idx hpi
+  refine ⟨?_, ?_, c7, c1, c3, colonFree_of_legal c2, hi⟩
+  · rw [clean_v3, if_pos rfl, hvp]
+    exact C04.v3_parse_render i p hpi _ c1 c2 c3 c4 c5
+  · intro b
+    rw [clean_v3, clean_v3]
+    exact congrArg (fun x => _ ++ join '/' (List.map fieldOf x)) c6
+
+theorem canon4 {s : Str} {m : MMap} (hp : V4.parse s = .ok m) :
+    V4.parse (V4.cleanOf m true) = .ok (definedPairs (keys Gen.V4.abbrs) V4.X m) ∧
+    (∀ b, V4.cleanOf (definedPairs (keys Gen.V4.abbrs) V4.X m) b = V4.cleanOf m b) ∧
+    assignment V4.X (definedPairs (keys Gen.V4.abbrs) V4.X m) = assignment V4.X m ∧
+    definedPairs (keys Gen.V4.abbrs) V4.X m ≠ [] ∧
+    SlashFree (definedPairs (keys Gen.V4.abbrs) V4.X m) ∧
+    ColonFree (definedPairs (keys Gen.V4.abbrs) V4.X m) := by
+  obtain ⟨-, -, hl, hn, hm⟩ := C04.v4_parse_ok_fields s m hp
+  obtain ⟨c1, c2, c3, c4, c5, c6, c7⟩ :=
+    canon C04.pinned4 V4.X C05.nd_legal.2.2 abbrs_nodup.2.2 (by decide) m hl hn hm
+  refine ⟨?_, ?_, c7, c1, c3, colonFree_of_legal c2⟩
+  · rw [clean_v4, if_pos rfl]
+    exact C04.v4_parse_render _ c1 c2 c3 c4 c5
+  · intro b
+    rw [clean_v4, clean_v4]
+    exact congrArg (fun x => _ ++ join '/' (List.map fieldOf x)) c6
+
+/-- what a successful `CVSS3(s)` produced -/
+theorem v3_construct_facts {s : Str} {o : V3.Obj} (h : V3.construct s = .ok o) :
+    V3.parse s = .ok (o.minor, o.orig) ∧
+    o.base = Spec.V3.baseScore (assignment V3.X o.orig) ∧
+    o.temporal = Spec.V3.temporalScore (assignment V3.X o.orig) ∧
+    o.env = Spec.V3.environmentalScore o.minor (assignment V3.X o.orig) := by
+  obtain ⟨i, m, hp, hb⟩ := (v3_construct_ok_iff s o).1 h
+  obtain ⟨o0, hb0, -, h2, h3, h4, h5, h6, -⟩ := C01.v3_build_eq_spec s i m (validMap3_of_parse hp)
+  rw [hb] at hb0
+  cases hb0
+  rw [h2, h3]
+  exact ⟨hp, h4, h5, h6⟩
+
+/-! ### re-parsing the clean vector -/
+
+/-- v2: re-parsing the clean vector succeeds, yields exactly the canonical listing as metric map, and an
+    object with the same scores, ratings and clean vector that is equal to the original -/
+theorem v2_clean_roundtrip (s : Str) (o : V2.Obj) (h : V2.construct s = .ok o) :
+    ∃ o', V2.construct o.clean = .ok o' ∧ o'.metrics = definedPairs (keys Gen.V2.abbrs) V2.ND o.metrics ∧
+      o'.scores = o.scores ∧ o'.severities = o.severities ∧ o'.clean = o.clean ∧
+      (AnyObj.o2 o').eq (AnyObj.o2 o) = true := by
+  obtain ⟨m, hp, rfl⟩ := (v2_construct_ok_iff s o).1 h
+  obtain ⟨c1, c2, c3, -⟩ := canon2 hp
+  refine ⟨{ vector := V2.cleanOf m, metrics := definedPairs (keys Gen.V2.abbrs) V2.ND m,
+            base := Spec.V2.baseScore (assignment V2.ND (definedPairs (keys Gen.V2.abbrs) V2.ND m)),
+            temporal := Spec.V2.temporalScore (assignment V2.ND (definedPairs (keys Gen.V2.abbrs) V2.ND m)),
+            env := Spec.V2.environmentalScore (assignment V2.ND (definedPairs (keys Gen.V2.abbrs) V2.ND m)) },
+    ?_, rfl, ?_, ?_, c2, ?_⟩
+  · exact (v2_construct_ok_iff _ _).2 ⟨_, c1, rfl⟩
+  · simp only [V2.Obj.scores, c3]
+  · simp only [V2.Obj.severities, V2.Obj.scores, c3]
+  · simp only [AnyObj.eq, AnyObj.ver, AnyObj.clean, V2.Obj.clean, c2, decide_true, Bool.and_self]
+
+/-- v3: likewise (the minor version is preserved) -/
+theorem v3_clean_roundtrip (s : Str) (o : V3.Obj) (h : V3.construct s = .ok o) :
+    ∃ o', V3.construct o.clean = .ok o' ∧ o'.minor = o.minor ∧
+      o'.orig = definedPairs (keys Gen.V3.abbrs) V3.X o.orig ∧
+      o'.scores = o.scores ∧ o'.severities = o.severities ∧ o'.clean = o.clean ∧
+      (AnyObj.o3 o').eq (AnyObj.o3 o) = true := by
+  obtain ⟨hp, hb, ht, he⟩ := v3_construct_facts h
+  obtain ⟨c1, c2, c3, -⟩ := canon3 hp
+  obtain ⟨o', hb', -, h2, h3, h4, h5, h6, -⟩ :=
+    C01.v3_build_eq_spec (V3.cleanOf o.minor o.orig true) o.minor _ (validMap3_of_parse c1)
+  rw [c3] at h4 h5 h6
+  have hcl : ∀ b, V3.Obj.clean o' b = V3.Obj.clean o b := by
+    intro b
+    unfold V3.Obj.clean
+    rw [h2, h3]
+    exact c2 b
+  refine ⟨o', ?_, h2, h3, ?_, ?_, hcl true, ?_⟩
+  · exact (v3_construct_ok_iff _ _).2 ⟨_, _, c1, hb'⟩
+  · simp only [V3.Obj.scores, h4, h5, h6, hb, ht, he]
+  · simp only [V3.Obj.severities, h4, h5, h6, hb, ht, he]
+  · simp only [AnyObj.eq, AnyObj.ver, AnyObj.clean, hcl true, decide_true, Bool.and_self]
+
+/-- v4, at the level of the parser (the constructor-level statement follows with C02):
+    the clean vector parses to exactly the canonical listing -/
+theorem v4_clean_reparse (s : Str) (m : MMap) (h : V4.parse s = .ok m) :
+    V4.parse (V4.cleanOf m true) = .ok (definedPairs (keys Gen.V4.abbrs) V4.X m) ∧
+    V4.cleanOf (definedPairs (keys Gen.V4.abbrs) V4.X m) true = V4.cleanOf m true := by
+  obtain ⟨c1, c2, -⟩ := canon4 h
+  exact ⟨c1, c2 true⟩
+
+/-! ### equality is "same version and same defined metric values" -/
+
+/-- v2: two constructed objects are equal exactly when they define the same metric values -/
+theorem v2_eq_iff (s₁ s₂ : Str) (o₁ o₂ : V2.Obj) (h₁ : V2.construct s₁ = .ok o₁) (h₂ : V2.construct s₂ = .ok o₂) :
+    (AnyObj.o2 o₁).eq (AnyObj.o2 o₂) = true ↔
+      definedPairs (keys Gen.V2.abbrs) V2.ND o₁.metrics = definedPairs (keys Gen.V2.abbrs) V2.ND o₂.metrics := by
+  obtain ⟨m₁, hp₁, rfl⟩ := (v2_construct_ok_iff s₁ o₁).1 h₁
+  obtain ⟨m₂, hp₂, rfl⟩ := (v2_construct_ok_iff s₂ o₂).1 h₂
+  obtain ⟨-, -, -, a1, a2, a3⟩ := canon2 hp₁
+  obtain ⟨-, -, -, b1, b2, b3⟩ := canon2 hp₂
+  simp only [AnyObj.eq, AnyObj.ver, AnyObj.clean, V2.Obj.clean, decide_true, Bool.true_and,
+    decide_eq_true_eq, clean_v2]
+  exact ⟨render_inj _ _ a1 b1 a2 b2 a3 b3, fun h => by rw [h]⟩
+
+/-- v3: … and have the same minor version (3.0 and 3.1 differ) -/
+theorem v3_eq_iff (s₁ s₂ : Str) (o₁ o₂ : V3.Obj) (h₁ : V3.construct s₁ = .ok o₁) (h₂ : V3.construct s₂ = .ok o₂) :
+    (AnyObj.o3 o₁).eq (AnyObj.o3 o₂) = true ↔
+      o₁.minor = o₂.minor ∧
+      definedPairs (keys Gen.V3.abbrs) V3.X o₁.orig = definedPairs (keys Gen.V3.abbrs) V3.X o₂.orig := by
+  obtain ⟨hp₁, -⟩ := v3_construct_facts h₁
+  obtain ⟨hp₂, -⟩ := v3_construct_facts h₂
+  obtain ⟨-, -, -, a1, a2, a3, ai⟩ := canon3 hp₁
+  obtain ⟨-, -, -, b1, b2, b3, bi⟩ := canon3 hp₂
+  simp only [AnyObj.eq, AnyObj.ver, AnyObj.clean, V3.Obj.clean, decide_true, Bool.true_and,
+    decide_eq_true_eq, clean_v3, if_true]
+  constructor
+  · intro h
+    have hlen : (V3.versionPrefix o₁.minor).length = (V3.versionPrefix o₂.minor).length := by
+      rcases ai with e1 | e1 <;> rcases bi with e2 | e2 <;> rw [e1, e2] <;> decide
+    obtain ⟨hpre, hbody⟩ := List.append_inj h hlen
+    refine ⟨?_, render_inj _ _ a1 b1 a2 b2 a3 b3 hbody⟩
+    rcases ai with e1 | e1 <;> rcases bi with e2 | e2 <;> rw [e1, e2] at hpre ⊢ <;>
+      first | rfl | (exact absurd hpre (by decide))
+  · rintro ⟨hm, hd⟩
+    rw [hm, hd]
+
+/-- v4 (for objects whose `orig` comes from a successful parse) -/
+theorem v4_eq_iff (s₁ s₂ : Str) (o₁ o₂ : V4.Obj) (h₁ : V4.parse s₁ = .ok o₁.orig) (h₂ : V4.parse s₂ = .ok o₂.orig) :
+    (AnyObj.o4 o₁).eq (AnyObj.o4 o₂) = true ↔
+      definedPairs (keys Gen.V4.abbrs) V4.X o₁.orig = definedPairs (keys Gen.V4.abbrs) V4.X o₂.orig := by
+  obtain ⟨-, -, -, a1, a2, a3⟩ := canon4 h₁
+  obtain ⟨-, -, -, b1, b2, b3⟩ := canon4 h₂
+  simp only [AnyObj.eq, AnyObj.ver, AnyObj.clean, V4.Obj.clean, decide_true, Bool.true_and,
+    decide_eq_true_eq, clean_v4, if_true]
+  constructor
+  · intro h
+    exact render_inj _ _ a1 b1 a2 b2 a3 b3 (List.append_cancel_left h)
+  · intro hd
+    rw [hd]
+
+/-- "define the same metric values", spelled out: the canonical listings coincide exactly when every
+    metric of the table has the same defined value (or none) in both maps -/
+theorem definedPairs_eq_iff (abbrs : List Str) (nd : Str) (m₁ m₂ : MMap) (hn : abbrs.Nodup) :
+    definedPairs abbrs nd m₁ = definedPairs abbrs nd m₂ ↔
+      ∀ k ∈ abbrs, (match lookup k m₁ with | some v => if v ≠ nd then some v else none | none => none) =
+                   (match lookup k m₂ with | some v => if v ≠ nd then some v else none | none => none) := by
+  constructor
+  · intro h k hk
+    have h1 := lookup_definedPairs abbrs nd m₁ hn k
+    have h2 := lookup_definedPairs abbrs nd m₂ hn k
+    rw [if_pos hk] at h1 h2
+    rw [h] at h1
+    exact (h1.symm.trans h2 : defVal nd m₁ k = defVal nd m₂ k)
+  · intro h
+    exact definedPairs_congr abbrs nd m₁ m₂ h
+
+/-- equal v2 / v3 objects have identical scores, ratings and clean vectors -/
+theorem v2_eq_observables (s₁ s₂ : Str) (o₁ o₂ : V2.Obj) (h₁ : V2.construct s₁ = .ok o₁) (h₂ : V2.construct s₂ = .ok o₂)
+    (he : (AnyObj.o2 o₁).eq (AnyObj.o2 o₂) = true) :
+    o₁.scores = o₂.scores ∧ o₁.severities = o₂.severities ∧ o₁.clean = o₂.clean := by
+  have hd := (v2_eq_iff s₁ s₂ o₁ o₂ h₁ h₂).1 he
+  have hc : o₁.clean = o₂.clean := by
+    simp only [AnyObj.eq, AnyObj.ver, AnyObj.clean, decide_true, Bool.true_and] at he
+    exact of_decide_eq_true he
+  obtain ⟨m₁, hp₁, rfl⟩ := (v2_construct_ok_iff s₁ o₁).1 h₁
+  obtain ⟨m₂, hp₂, rfl⟩ := (v2_construct_ok_iff s₂ o₂).1 h₂
+  obtain ⟨-, -, a, -⟩ := canon2 hp₁
+  obtain ⟨-, -, b, -⟩ := canon2 hp₂
+  simp only at hd
+  have ha : assignment V2.ND m₁ = assignment V2.ND m₂ := by rw [← a, ← b, hd]
+  refine ⟨?_, ?_, hc⟩
+  · simp only [V2.Obj.scores, ha]
+  · simp only [V2.Obj.severities, V2.Obj.scores, ha]
+
+theorem v3_eq_observables (s₁ s₂ : Str) (o₁ o₂ : V3.Obj) (h₁ : V3.construct s₁ = .ok o₁) (h₂ : V3.construct s₂ = .ok o₂)
+    (he : (AnyObj.o3 o₁).eq (AnyObj.o3 o₂) = true) :
+    o₁.scores = o₂.scores ∧ o₁.severities = o₂.severities ∧ o₁.clean = o₂.clean := by
+  obtain ⟨hm, hd⟩ := (v3_eq_iff s₁ s₂ o₁ o₂ h₁ h₂).1 he
+  have hc : o₁.clean = o₂.clean := by
+    simp only [AnyObj.eq, AnyObj.ver, AnyObj.clean, decide_true, Bool.true_and] at he
+    exact of_decide_eq_true he
+  obtain ⟨hp₁, hb₁, ht₁, he₁⟩ := v3_construct_facts h₁
+  obtain ⟨hp₂, hb₂, ht₂, he₂⟩ := v3_construct_facts h₂
+  obtain ⟨-, -, a, -⟩ := canon3 hp₁
+  obtain ⟨-, -, b, -⟩ := canon3 hp₂
+  have ha : assignment V3.X o₁.orig = assignment V3.X o₂.orig := by rw [← a, ← b, hd]
+  refine ⟨?_, ?_, hc⟩
+  · simp only [V3.Obj.scores, hb₁, ht₁, he₁, hb₂, ht₂, he₂, ha, hm]
+  · simp only [V3.Obj.severities, hb₁, ht₁, he₁, hb₂, ht₂, he₂, ha, hm]
 
 end Cvss.Props.C07
